@@ -32,6 +32,16 @@ def arm_emptysan(np):
     np.empty, np.empty_like = empty, empty_like
 
 
+def workload(mod, tier, seed):
+    """The case stream of one check.  The thorough tier repeats the module's thorough generator under THOROUGH_PASSES derived seeds:
+    the random parts of every generator (shapes, values, option draws, histories) are new in each pass, the exhaustive parts are
+    re-run with new values.  Deterministic, so every shard sees the same stream."""
+    yield from mod.gen_cases(tier, seed)
+    if tier == "thorough":
+        for sub in range(1, int(getattr(mod, "THOROUGH_PASSES", 6))):
+            yield from mod.gen_cases(tier, int(seed) + 7919 * sub)
+
+
 def run_shard(prop, tier, seed, shard, nshards):
     np, ttb = load()
     import os
@@ -50,7 +60,7 @@ def run_shard(prop, tier, seed, shard, nshards):
     samples = []
     per_w = {}
     nontrivial = getattr(mod, "nontrivial", lambda c: True)
-    for idx, case in enumerate(mod.gen_cases(tier, seed)):
+    for idx, case in enumerate(workload(mod, tier, seed)):
         if idx % nshards != shard:
             continue
         ncases += 1
